@@ -30,6 +30,12 @@ class _Normaliser(ast.NodeTransformer):
         nid = self.rename.get(nid, nid)
         return ast.copy_location(ast.Name(id=nid, ctx=node.ctx), node)
 
+    def visit_ExceptHandler(self, node):
+        node = self.generic_visit(node)
+        if node.name:
+            node.name = self.rename.get(node.name, node.name)
+        return node
+
     def visit_Call(self, node):
         node = self.generic_visit(node)
         # keyword / positional style at calls of the library's own functions is not a difference
@@ -54,6 +60,8 @@ def _locals_in_order(fn):
     for sub in ast.walk(fn):
         if isinstance(sub, ast.Name) and isinstance(sub.ctx, ast.Store) and sub.id not in names:
             names.append(sub.id)
+        if isinstance(sub, ast.ExceptHandler) and sub.name and sub.name not in names:
+            names.append(sub.name)
     return names
 
 
